@@ -256,7 +256,21 @@ struct hb_shared_ptr {
   std::shared_ptr<T> p_;
 
   constexpr hb_shared_ptr() noexcept = default;
+  constexpr hb_shared_ptr(std::nullptr_t) noexcept {}  // NOLINT
   explicit hb_shared_ptr(std::shared_ptr<T> p) : p_{std::move(p)} {}
+  hb_shared_ptr &
+  operator=(std::nullptr_t) noexcept
+  {
+    drop();
+    return *this;
+  }
+  void
+  swap(hb_shared_ptr &o) noexcept
+  {
+    p_.swap(o.p_);
+  }
+  friend bool operator==(const hb_shared_ptr &a, std::nullptr_t) noexcept { return !a.p_; }
+  friend bool operator!=(const hb_shared_ptr &a, std::nullptr_t) noexcept { return static_cast<bool>(a.p_); }
   hb_shared_ptr(const hb_shared_ptr &) = default;
   hb_shared_ptr(hb_shared_ptr &&o) noexcept : p_{std::move(o.p_)} {}
   hb_shared_ptr &
